@@ -108,3 +108,26 @@ Proof.
   intros Hk En Eq Er Hd H. destruct (verify_jws_binds t h o km Hk H) as [_ [q' [m' [Eq' [Er' [_ Ed]]]]]].
   rewrite Eq in Eq'. inversion Eq'; subst q'. rewrite Er in Er'. inversion Er'; subst m'. contradiction.
 Qed.
+
+(* rejection side, in the words of the statement: the order of the checks and what can never be accepted *)
+Theorem pres_nonce_mismatch_first t h o : pt_nonce t <> po_nonce o -> validate_pres t h o = inr PVNonce.
+Proof.
+  intros N. unfold validate_pres, verify_jws.
+  destruct (oz_eqb (pt_nonce t) (po_nonce o)) eqn:En; [apply oz_eqb_eq in En; contradiction|reflexivity].
+Qed.
+Theorem pres_jws_error_propagates t h o e : verify_jws t h o = inr e -> validate_pres t h o = inr e.
+Proof. intros H. unfold validate_pres. rewrite H. reflexivity. Qed.
+Theorem pres_foreign_holder_never_accepted t h o d : pt_iss_did t <> Some (h_id h) -> validate_pres t h o <> inl d.
+Proof. intros N H. apply validate_pres_sound in H. destruct H as [_ [E _]]. contradiction. Qed.
+Theorem pres_bad_signature_never_accepted t h o d :
+  (forall key, pt_sig_ok t key = false) -> validate_pres t h o <> inl d.
+Proof.
+  intros N H. apply validate_pres_sound in H. destruct H as [[_ [q [m [_ [_ [_ S]]]]]] _].
+  rewrite N in S. discriminate S.
+Qed.
+Theorem pres_no_method_never_accepted t h o d :
+  (forall q, resolve_method (h_doc h) q (po_scope o) = None) -> validate_pres t h o <> inl d.
+Proof.
+  intros N H. apply validate_pres_sound in H. destruct H as [[_ [q [m [_ [R _]]]]] _].
+  rewrite N in R. discriminate R.
+Qed.
